@@ -431,7 +431,9 @@ func synNondeterminism(p *Program, prop string) []*OblResult {
 				if why == "" {
 					out = append(out, synOK(prop, id, text))
 				} else {
-					out = append(out, synFail(prop, id, text, p.pos(rg.Pos()), why))
+					o := synFail(prop, id, text, p.pos(rg.Pos()), why)
+					o.Func = fnName(fn)
+					out = append(out, o)
 				}
 			}
 		}
